@@ -364,12 +364,24 @@ func cacheEntries(h *harness) []*entry {
 		hdr      cacheHeader
 		lenName  string
 		n        int64
+		fault    string // "": none; the transport fails / the body breaks after half of it / after its first byte
+	}
+	faulty := func(c userCase, r hostileResp) hostileResp {
+		switch c.fault {
+		case "transport-error":
+			r.err = errors.New("read tcp 203.0.113.7:443: connection reset by peer")
+		case "body-breaks-in-the-middle":
+			r.failAfter = max(r.body.length()/2, 1)
+		case "body-breaks-at-the-first-byte":
+			r.failAfter = 1
+		}
+		return r
 	}
 	genUser := func(valid int64, sizesQuick, sizesThorough []int) func(h *harness, e *entry, emit func(input)) {
 		return func(h *harness, e *entry, emit func(input)) {
 			hdrs := cacheHeaders()
 			pick := []cacheHeader{hdrs[0], hdrs[5], hdrs[7]} // cacheable, cacheable but expired at once, not cacheable
-			emit(input{data: []byte("valid answer, cacheable"), valid: true, seed: "valid", aux: userCase{sizesQuick[0], false, hdrs[0], "exactly-the-document", exactLength}})
+			emit(input{data: []byte("valid answer, cacheable"), valid: true, seed: "valid", aux: userCase{sizesQuick[0], false, hdrs[0], "exactly-the-document", exactLength, ""}})
 			sizes := sizesQuick
 			if h.r.Thorough() {
 				sizes = sizesThorough
@@ -387,7 +399,20 @@ func cacheEntries(h *harness) []*entry {
 							}
 							emit(input{data: []byte(fmt.Sprintf("cache=%d state=%s headers=%s body=%s(%d)", size, st, hd.name, l.name, l.n)),
 								ops:  []string{"len:" + l.name + "@/body", "state:" + st + "@/cache", "headers:" + hd.name + "@/headers", fmt.Sprintf("cache-size:%d@/cache", size)},
-								seed: "valid", aux: userCase{size, filled, hd, l.name, l.n}})
+								seed: "valid", aux: userCase{size, filled, hd, l.name, l.n, ""}})
+						}
+					}
+				}
+				// the answer does not arrive whole
+				for _, fault := range []string{"transport-error", "body-breaks-in-the-middle", "body-breaks-at-the-first-byte"} {
+					for _, n := range []int64{exactLength, int64(size) + 1, client.DefaultMaxHttpResponseSize + 1} {
+						for _, hd := range []cacheHeader{hdrs[0], hdrs[7]} {
+							if size > 1<<20 {
+								continue
+							}
+							emit(input{data: []byte(fmt.Sprintf("cache=%d state=empty headers=%s body of %d bytes, fault=%s", size, hd.name, n, fault)),
+								ops:  []string{"fault:" + fault + "@/body", fmt.Sprintf("len:%d@/body", n), "headers:" + hd.name + "@/headers", fmt.Sprintf("cache-size:%d@/cache", size)},
+								seed: "valid", aux: userCase{size, false, hd, "fault-" + fault, n, fault}})
 						}
 					}
 				}
@@ -438,6 +463,12 @@ func cacheEntries(h *harness) []*entry {
 			}
 			id := "did:web:" + host
 			url, shouldWork := serve(id, c.hdr, c.n)
+			if c.fault != "" {
+				shouldWork = false
+				srv.mu.Lock()
+				srv.routes[url] = faulty(c, srv.routes[url])
+				srv.mu.Unlock()
+			}
 			c0 := srv.consumedOf(url)
 			first, err := resolve(id)
 			h.r.Count("cache_round_trips_observed", 1)
@@ -527,6 +558,12 @@ func cacheEntries(h *harness) []*entry {
 				}
 			}
 			url, shouldWork := serve("target", c.hdr, c.n)
+			if c.fault != "" {
+				shouldWork = false
+				srv.mu.Lock()
+				srv.routes[url] = faulty(c, srv.routes[url])
+				srv.mu.Unlock()
+			}
 			c0 := srv.consumedOf(url)
 			err := verify(url)
 			h.r.Count("cache_round_trips_observed", 1)
